@@ -35,9 +35,9 @@ def gen_struct(rng, maxacc=4):
     accs = []
     for i in range(n):
         k = "b" if (i == 0 and n > 1 and rng.random() < 0.5) else rng.choice("lsto")
-        mods = "".join(sorted(set(rng.choice("12345678") for _ in range(rng.choice([0, 0, 1, 2])))))
+        mods = "".join(sorted(set(rng.choice("1234567899") for _ in range(rng.choice([0, 0, 1, 2])))))
         if k == "b":
-            mods = mods.replace("2", "").replace("3", "").replace("4", "").replace("7", "").replace("8", "").replace("6", "")
+            mods = mods.replace("2", "").replace("3", "").replace("4", "").replace("7", "").replace("8", "").replace("6", "").replace("9", "")
         accs.append(k + mods)
     return ",".join(accs)
 
@@ -46,7 +46,11 @@ def gen_vals(rng, struct):
     n = len(struct.split(","))
     if rng.random() < 0.3:
         return "-"
-    return ",".join("%d.%d.%d" % (rng.randrange(n), rng.randrange(12), rng.randrange(100)) for _ in range(rng.randrange(1, 4)))
+    vs = ["%d.%d.%d" % (rng.randrange(n), rng.randrange(12), rng.randrange(100)) for _ in range(rng.randrange(1, 4))]
+    for i, a in enumerate(struct.split(",")):
+        if "9" in a[1:] and rng.random() < 0.6:
+            vs.append("%d.z.%d" % (i, rng.randrange(100)))     # the value-less characteristic gets a value: not a change of structure
+    return ",".join(vs)
 
 
 def cat_of(struct):
@@ -66,7 +70,7 @@ def mutate_struct(rng, struct):
     else:
         i = rng.randrange(len(accs))
         k, mods = accs[i][0], set(accs[i][1:])
-        allowed = "15" if k == "b" else "12345678"
+        allowed = "15" if k == "b" else "123456789"
         m = rng.choice(allowed)
         mods ^= {m}
         accs[i] = k + "".join(sorted(mods))
@@ -203,6 +207,7 @@ def gen(rng, tier):
     # a controller pairing under the accessory's own device id (recorded finding)
     add("hist/self", "hist S:l:-:5 E PSELF T E X S:l:-:5 T E")
     add("hist/self", "hist S:l,s:-:2 PS:c1 T PSELF T E S:l,s:-:2 T E")
+    add("hist/novalue", "hist S:l9:-:5 T X S:l9:0.z.4:5 T X S:l9:-:5 T E S:l9,s9:1.z.2:2 T X S:l9,s9:0.z.1:2 T E")
     add("hist/badpin", "hist S:l:-:5 X pin=11111111 S:l:-:5 T pin=00102003 S:l1:-:5 T E")
     return cases
 
@@ -217,6 +222,9 @@ def gen_json(rng, tier):
         else:
             b = mutate_struct(rng, a)
         pairs.append({"id": "j%d" % i, "line": "json %s:%s %s:%s" % (a, gen_vals(rng, a), b, gen_vals(rng, b)), "kind": "json/" + ("same" if a == b else "diff"), "same": a == b})
+    # a characteristic that has no value in one tree and a value in the other (same structure)
+    for i, (a, va, vb) in enumerate([("l9", "-", "0.z.4"), ("l9", "0.z.4", "-"), ("b,t9,s9", "1.z.1", "2.z.2"), ("s89", "-", "0.z.7")]):
+        pairs.append({"id": "jn%d" % i, "line": "json %s:%s %s:%s" % (a, va, a, vb), "kind": "json/same", "same": True})
     return pairs
 
 
